@@ -75,6 +75,9 @@ def units(tier, seed):
     nb = 8
     for b in range(nb):
         out.append({"kind": "fmarks", "ids": [x[0] for x in sel[b::nb]], "name": f"fmarks#{b}/{nb}"})
+    # isolation pairs: two schemas with the same names / JSON / expression strings but different meaning, used one
+    # after the other in one process, both creation orders
+    out.extend(common.pairseq_units(PROPERTY_ID, 4 if tier == "quick" else 5, 3))
     return out
 
 
@@ -183,12 +186,18 @@ def check_step(c, d, node, T, sd, res):
 
 
 def _reverse_marks(j):
-    """Reverse every mark list with >= 2 entries inside a step's JSON (in place). True if anything changed."""
+    """Reverse the order of the mark TYPES in every mark list inside a step's JSON (in place); marks of one type keep
+    their relative order (for marks that do not exclude their own type that order is part of the value: both orders
+    are canonical sets, and different ones). True if anything changed."""
     changed = False
     if isinstance(j, dict):
         for k, v in j.items():
-            if k == "marks" and isinstance(v, list) and len(v) >= 2:
-                v.reverse()
+            if k == "marks" and isinstance(v, list) and len({m.get("type") for m in v if isinstance(m, dict)}) >= 2:
+                types = []
+                for m in v:
+                    if m.get("type") not in types:
+                        types.append(m.get("type"))
+                v[:] = [m for t in reversed(types) for m in v if m.get("type") == t]
                 changed = True
             elif _reverse_marks(v):
                 changed = True
@@ -232,6 +241,8 @@ def run_fmarks(u, res):
 
 
 def run_unit(u):
+    if u.get("kind") == "pairseq":
+        return common.run_pairseq(u, run_unit, PROPERTY_ID)
     res = engine.UnitResult(PROPERTY_ID)
     if u.get("kind") == "fmarks":
         engine.arm()
